@@ -640,6 +640,8 @@ class Quaternion(np.ndarray):
         if q.shape[-1] == 3:
             q = np.array([0.0, *q])
         q_norm = np.linalg.norm(q)
+        if not np.isfinite(q_norm):
+            raise ValueError(f"Quaternion values must be finite. Got {q}")
         if q_norm == 0.0:
             raise ValueError("Quaternion cannot be a zero vector.")
         if versor:
